@@ -107,7 +107,7 @@ TEXT = {
         engine="graph (E2)",
         design_ref="DESIGN.md §3 C13",
         technique="explicit-state BFS over the real ObjectTree operations with a reference tree; exhaustive lookup-expression enumeration in every state",
-        text="All histories of newObject/append/appendAfter/detach/free (issued under their documented preconditions) on a pool of <=4 (thorough 5) objects beyond the root are explored to depth 7 (9) with deduplication on the complete pool + free list. In every state the parent/sibling/first/last links, ArgAt/NumArgs, freed-object unreachability and LIFO slot reuse are compared with a reference tree, and 130 lookup expressions (all prefix forms, 0-3 segments, embedded dual/multi-name bytes, truncated tails) are resolved by the real Find from every live scope and compared with a resolver written from the ACPI search rules; ClosestNamedAncestor likewise.",
+        text="All histories of newObject/append/appendAfter/detach/free (issued under their documented preconditions) on a pool of <=4 (thorough 5) objects beyond the root are explored to depth 7 (9) with deduplication on the complete pool + free list. In every state the parent/sibling/first/last links, ArgAt/NumArgs, freed-object unreachability and LIFO slot reuse are compared with a reference tree, and 410 lookup expressions (all prefix forms, 0-3 segments, embedded dual/multi-name bytes, too-short tails including proper prefixes of existing names behind prefix bytes) are resolved by the real Find from every live scope and compared with a resolver written from the ACPI search rules; ClosestNamedAncestor likewise.",
         note="Names {AAAA,BBBB,unnamed}; deeper trees than 5 objects are not explored. Lookup is checked over 'each node's children as its scope' (the property's reading), not through ScopeBlock transparency (see C11 known findings).",
     ),
     "C16": dict(
